@@ -355,7 +355,7 @@ theorem operandVarsOk_wf (n lv : Nat) : ∀ (x : Qentem.Expr.Operand R),
   | .var v, h => by
     simp only [Qentem.Expr.operandVarsOk, Bool.and_eq_true, decide_eq_true_eq, beq_iff_eq] at h
     simp only [wfOperand, wfVar, Bool.and_eq_true, decide_eq_true_eq, Bool.or_eq_true, beq_iff_eq]
-    exact ⟨h.1, Or.inl h.2⟩
+    exact ⟨Nat.le_of_lt h.1, Or.inl h.2⟩
   | .sub items, h => by
     simp only [Qentem.Expr.operandVarsOk] at h
     simp only [wfOperand]
